@@ -186,6 +186,37 @@ static void direct_law(vt::Rng& g, long long id) {
     s.GenDirect(la[0], lo[0], az[0], false, -s12[0], false, bl, bo, t, t, bm, bM12, bM21, bS);
     r.li("back", {nmq(dist(cart(a, f, bl, bo), cart(a, f, lat1, lon1)) / scale), nmq(((LD)bm + m12[0]) / scale), uq((LD)bM12 - M21[0], 1e-15L), uq((LD)bM21 - M12[0], 1e-15L),
                   uq(remainderl((LD)bS + S12[0], area) / (scale * scale), 1e-4L)}); }
+  // C03 interfaces: the overloads that return only some of m12, M12, M21, S12 (solver, arc form and line object) return the same
+  // values as the call that returns everything (units 1e-15, lengths relative to a, area relative to the ellipsoid area)
+  { vector<long long> ov; double t, o1, o2, o3;
+    auto rel = [&](double v, double ref, LD unit) { return uq(((LD)v - ref) / unit, 1e-15L); };
+    const Geodesic& G = S[0].g; const GeodesicExact& E = S[1].e;
+    if (!arc) {
+      G.Direct(lat1, lon1, azi1, sa, t, t, t, o1); ov.push_back(rel(o1, m12[0], a));                                         // m12 only
+      G.Direct(lat1, lon1, azi1, sa, t, t, t, o1, o2); ov.push_back(rel(o1, M12[0], 1)); ov.push_back(rel(o2, M21[0], 1));   // M12, M21 only
+      G.Direct(lat1, lon1, azi1, sa, t, t, t, o1, o2, o3); ov.push_back(rel(o1, m12[0], a)); ov.push_back(rel(o2, M12[0], 1)); ov.push_back(rel(o3, M21[0], 1));
+      E.Direct(lat1, lon1, azi1, sa, t, t, t, o1); ov.push_back(rel(o1, m12[1], a));
+      E.Direct(lat1, lon1, azi1, sa, t, t, t, o1, o2); ov.push_back(rel(o1, M12[1], 1)); ov.push_back(rel(o2, M21[1], 1));
+      GeodesicLine l = G.Line(lat1, lon1, azi1); l.Position(sa, t, t, t, o1, o2); ov.push_back(rel(o1, M12[0], 1)); ov.push_back(rel(o2, M21[0], 1));
+      l.Position(sa, t, t, t, o1); ov.push_back(rel(o1, m12[0], a));
+      GeodesicLineExact le = E.Line(lat1, lon1, azi1); le.Position(sa, t, t, t, o1, o2); ov.push_back(rel(o1, M12[1], 1)); ov.push_back(rel(o2, M21[1], 1));
+      G.GenDirect(lat1, lon1, azi1, false, sa, Geodesic::GEODESICSCALE, t, t, t, t, t, o1, o2, t); ov.push_back(rel(o1, M12[0], 1)); ov.push_back(rel(o2, M21[0], 1));
+      G.GenDirect(lat1, lon1, azi1, false, sa, Geodesic::AREA, t, t, t, t, t, t, t, o1); ov.push_back(rel(o1, S12[0], area));
+      E.GenDirect(lat1, lon1, azi1, false, sa, GeodesicExact::AREA, t, t, t, t, t, t, t, o1); ov.push_back(rel(o1, S12[1], area));
+    } else {
+      G.ArcDirect(lat1, lon1, azi1, sa, t, t, t, t, o1); ov.push_back(rel(o1, m12[0], a));
+      G.ArcDirect(lat1, lon1, azi1, sa, t, t, t, t, o1, o2); ov.push_back(rel(o1, M12[0], 1)); ov.push_back(rel(o2, M21[0], 1));
+      G.ArcDirect(lat1, lon1, azi1, sa, t, t, t, t, o1, o2, o3); ov.push_back(rel(o1, m12[0], a)); ov.push_back(rel(o2, M12[0], 1)); ov.push_back(rel(o3, M21[0], 1));
+      E.ArcDirect(lat1, lon1, azi1, sa, t, t, t, t, o1); ov.push_back(rel(o1, m12[1], a));
+      E.ArcDirect(lat1, lon1, azi1, sa, t, t, t, t, o1, o2); ov.push_back(rel(o1, M12[1], 1)); ov.push_back(rel(o2, M21[1], 1));
+      GeodesicLine l = G.Line(lat1, lon1, azi1); l.ArcPosition(sa, t, t, t, t, o1, o2); ov.push_back(rel(o1, M12[0], 1)); ov.push_back(rel(o2, M21[0], 1));
+      l.ArcPosition(sa, t, t, t, t, o1); ov.push_back(rel(o1, m12[0], a));
+      GeodesicLineExact le = E.Line(lat1, lon1, azi1); le.ArcPosition(sa, t, t, t, t, o1, o2); ov.push_back(rel(o1, M12[1], 1)); ov.push_back(rel(o2, M21[1], 1));
+      G.GenDirect(lat1, lon1, azi1, true, sa, Geodesic::GEODESICSCALE, t, t, t, t, t, o1, o2, t); ov.push_back(rel(o1, M12[0], 1)); ov.push_back(rel(o2, M21[0], 1));
+      G.GenDirect(lat1, lon1, azi1, true, sa, Geodesic::AREA, t, t, t, t, t, t, t, o1); ov.push_back(rel(o1, S12[0], area));
+      E.GenDirect(lat1, lon1, azi1, true, sa, GeodesicExact::AREA, t, t, t, t, t, t, t, o1); ov.push_back(rel(o1, S12[1], area));
+    }
+    r.li("ovl", ov); }
   r.emit();
 }
 
@@ -254,6 +285,20 @@ static void inverse_law(vt::Rng& g, long long id, const vector<Sym>& syms) {
   // C03 interface agreement: the direct solution along the returned azimuth gives the same m12, M12, M21, S12
   { double la, lo, az, t, dm, dM12, dM21, dS; S[0].GenDirect(lat1, lon1, azi1[0], false, s12[0], false, la, lo, az, t, dm, dM12, dM21, dS);
     r.li("itf", {nmq(((LD)dm - m12[0]) / scale), uq((LD)dM12 - M12[0], 1e-15L), uq((LD)dM21 - M21[0], 1e-15L), uq(remainderl((LD)dS - S12[0], area) / (scale * scale), 1e-4L)}); }
+  // C03 interfaces: the Inverse overloads returning only some of m12, M12, M21, S12 agree with the call that returns everything
+  { vector<long long> ov; double t, o1, o2, o3;
+    auto rel = [&](double v, double ref, LD unit) { return uq(((LD)v - ref) / unit, 1e-15L); };
+    const Geodesic& G = S[0].g; const GeodesicExact& E = S[1].e;
+    G.Inverse(lat1, lon1, lat2, lon2, t, t, t, o1); ov.push_back(rel(o1, m12[0], a));
+    G.Inverse(lat1, lon1, lat2, lon2, t, t, t, o1, o2); ov.push_back(rel(o1, M12[0], 1)); ov.push_back(rel(o2, M21[0], 1));
+    G.Inverse(lat1, lon1, lat2, lon2, t, t, t, o1, o2, o3); ov.push_back(rel(o1, m12[0], a)); ov.push_back(rel(o2, M12[0], 1)); ov.push_back(rel(o3, M21[0], 1));
+    E.Inverse(lat1, lon1, lat2, lon2, t, t, t, o1); ov.push_back(rel(o1, m12[1], a));
+    E.Inverse(lat1, lon1, lat2, lon2, t, t, t, o1, o2); ov.push_back(rel(o1, M12[1], 1)); ov.push_back(rel(o2, M21[1], 1));
+    G.GenInverse(lat1, lon1, lat2, lon2, Geodesic::GEODESICSCALE, t, t, t, t, o1, o2, t); ov.push_back(rel(o1, M12[0], 1)); ov.push_back(rel(o2, M21[0], 1));
+    G.GenInverse(lat1, lon1, lat2, lon2, Geodesic::AREA, t, t, t, t, t, t, o1); ov.push_back(rel(o1, S12[0], area));
+    E.GenInverse(lat1, lon1, lat2, lon2, GeodesicExact::AREA, t, t, t, t, t, t, o1); ov.push_back(rel(o1, S12[1], area));
+    E.GenInverse(lat1, lon1, lat2, lon2, GeodesicExact::REDUCEDLENGTH, t, t, t, o1, t, t, t); ov.push_back(rel(o1, m12[1], a));
+    r.li("ovl", ov); }
   r.emit();
 }
 
